@@ -25,6 +25,12 @@ from .. import tlc
 from .. import c05_build as B
 
 PID = "C05"
+EDIT_CLAUSES = ["identifier before the edit = identifier of a fresh isotherm with the base content",
+                "identifier after an in-place edit = identifier of a fresh isotherm with the edited content",
+                "identifier changes iff the content changes",
+                "== with a fresh isotherm of the edited content",
+                "== with a fresh isotherm of the old content iff the content did not change",
+                "undoing the edit in place restores the identifier"]
 HIDDEN_NAMES = {"index": "row labels", "num": "integer vs float number type", "branch": "dtype of the branch column"}
 
 
@@ -119,6 +125,72 @@ def fit_part(run, rng, thorough):
     run.add("traces_validated_against_impl", sum(len(g["obs"]) for g in groups))
     if groups and groups[0]["obs"]:
         run.sample({"fitted": groups[0]["group"], "observation": groups[0]["obs"][0], "oracle": answers[0]})
+
+
+def edit_part(run, rng, thorough, table):
+    """Edit-after-read histories on live objects (Mutate / Read of IdentityMC on the real code)."""
+    by_base = {}
+    for e in table:
+        by_base.setdefault(e["base"], []).append(e)
+    recs, meta = [], []
+    skipped = 0
+    readers = ["iso_id", "eq", "repr", "in_list"]
+    for base, entries in sorted(by_base.items()):
+        r0 = next(e for e in entries if e["default"])
+        base_routes = [e for e in entries if e["mut"]["kind"] == "none"]
+        fresh_base = B.materialise(r0)
+        muts = {}
+        for e in entries:
+            k = json.dumps(e["mut"], sort_keys=True)
+            if e["mut"]["kind"] in ("none", "rows swapped"):      # order-only edits are not judged (see Judge)
+                continue
+            if k not in muts or e["route"] == r0["route"]:
+                muts[k] = e
+        for k, me in sorted(muts.items()):
+            try:
+                fresh_mut = B.materialise(me)
+            except Exception as ex:
+                raise MachineryError(f"cannot build the fresh object for {base} {me['mut']}: {ex}")
+            nways = B.EDIT_WAYS.get(me["mut"]["kind"], 1)
+            if thorough:
+                plans = [(be, w, rd) for be in base_routes for w in range(nways) for rd in rng.sample(readers, 2)]
+            else:
+                plans = [(r0, w, readers[(w + rng.randrange(4)) % 4]) for w in range(nways)]
+                plans += [(rng.choice(base_routes), rng.randrange(nways), rng.choice(readers))]
+            for be, way, reader in plans:
+                if be["route"]["via"] == "copy":
+                    continue
+                try:
+                    o = B.edit_history(be, me, way, reader, fresh_base, fresh_mut)
+                except B.RouteNotRealisable:
+                    continue
+                except Exception as ex:
+                    run.violation({"site": "iso_id", "kind": "edit after read", "cls": r0["content"]["cls"], "edit": me["mut"]["kind"],
+                                   "observed": "exception:" + type(ex).__name__}, {"base": base, "mut": me["mut"], "route": be["route"], "way": way, "message": str(ex)[:300]})
+                    continue
+                if o.get("skip"):
+                    skipped += 1
+                    continue
+                recs.append({"k": "edit", "s": {"base": base, "mut": me["mut"], "route": be["route"]}, "way": way, "reader": reader,
+                             "fresh": fresh_mut.iso_id, "fresh_base": fresh_base.iso_id, **o})
+                meta.append((r0["content"]["cls"], me["mut"]["kind"]))
+                run.count(("edit", base, k, json.dumps(be["route"], sort_keys=True), way, reader))
+    answers = tlc.oracle("IdentityOracle", recs, timeout=900, chunk=20000)
+    for (cls, kind), r, a in zip(meta, recs, answers):
+        if not a["valid"]:
+            raise MachineryError("edit record refers to a mutation the spec does not list")
+        if a["failed"]:
+            # one signature per (class, group of edit, first failing clause in the order of EDIT_CLAUSES)
+            primary = next((c for c in EDIT_CLAUSES if c in a["failed"]), a["failed"][0])
+            group = ("data_raw" if kind in ("datum", "text cell", "branch mark", "row removed", "column added")
+                     else "model" if kind.startswith("model") else "metadata" if kind.startswith("meta") else "labels/material/adsorbate/temperature")
+            run.violation({"site": "iso_id", "kind": "edit after read", "cls": cls, "edited": group, "clause": primary},
+                          {"edit": kind, "failed_clauses": a["failed"], "record": r, "content_changes": a["effective"]})
+    run.add("traces_validated_against_impl", len(recs))
+    run.set(edit_histories=len(recs), edit_histories_not_realisable=skipped)
+    if recs:
+        i = rng.randrange(len(recs))
+        run.sample({"edit_history": recs[i], "oracle": answers[i]})
 
 
 def main(tier, seed):
@@ -220,6 +292,7 @@ def main(tier, seed):
                         "reads": obs[i]["reads"], "ids_other_processes": obs[i]["others"]})
 
     fit_part(run, rng, thorough)
+    edit_part(run, rng, thorough, table)
 
     run.set(exhaustive=bool(thorough),
             rule="scenario = base content (2 metadata-only, 4 point, 4 model) x minimal mutation (each metadata value/key, each unit label, material, adsorbate, "
@@ -227,7 +300,7 @@ def main(tier, seed):
                  "parameter/range/rmse/branch) x construction route (container, int/float literals, branch as ints/bools/column, direct/from_isotherm/JSON/"
                  "deepcopy/dict, insertion order, adsorbate spelling), enumerated by TLC; " + ("all rows" if thorough else "every mutation on the default route, every route on the unmutated content, 6% seeded of the rest")
                  + "; every object also re-built in " + ("2 other processes" if thorough else "1 other process") + " with another PYTHONHASHSEED and read through a seeded sequence of read-only calls; "
-                 "all pairs of one base judged by TLC; non-trivial = not the unmutated default-route object; distinct = distinct (base, mutation, route)")
+                 "all pairs of one base judged by TLC; edit-after-read histories: every mutation applied IN PLACE to a live object whose id was read (iso_id / == / repr / in), through every way of editing (loc, iloc, at, column assignment, drop, properties[], setattr, setters, model.params[]), id compared with a fresh object of the edited content, then undone; non-trivial = not the unmutated default-route object; distinct = distinct (base, mutation, route)")
     run.assume("contents are rendered from the fixed-point records of the spec with decimal arithmetic; no rendered number lies on an 8-decimal rounding tie (InvWellFormed)")
     run.assume("md5 collisions are ignored; an exception in the export step of a 'parse of an export' route makes the route unrealisable (C06), not an identity failure")
     return run.finish()
